@@ -38,6 +38,61 @@ fn pretty(args: &[&str]) -> String {
     }
 }
 
+fn spec_str(s: &ParseErrorSpecifics) -> String {
+    match s {
+        ParseErrorSpecifics::ExpectedAnyCharacter => "any".into(),
+        ParseErrorSpecifics::ExpectedCharacter { c } => format!("char:{}", *c as u32),
+        ParseErrorSpecifics::ExpectedCharacterRange { from, to } => format!("range:{}:{}", *from as u32, *to as u32),
+        ParseErrorSpecifics::ExpectedString { s } => format!("str:{}", hex(s.as_bytes())),
+        ParseErrorSpecifics::ExpectedCharacterClass { name } => format!("class:{}", hex(name.as_bytes())),
+        ParseErrorSpecifics::ExpectedEoi => "eoi".into(),
+        ParseErrorSpecifics::NegativeLookaheadFailed => "neg".into(),
+        ParseErrorSpecifics::CheckFunctionFailed { function_name } => format!("check:{}", hex(function_name.as_bytes())),
+        ParseErrorSpecifics::ExternRuleFailed { error_string } => format!("extern:{}", hex(error_string.as_bytes())),
+        ParseErrorSpecifics::LeftRecursionSentinel => "sentinel".into(),
+        ParseErrorSpecifics::Other => "other".into(),
+    }
+}
+
+fn leak(s: String) -> &'static str {
+    Box::leak(s.into_boxed_str())
+}
+
+// term <kind> <p1> <p2> <hex input>: one runtime matcher on a fresh state
+fn term(args: &[&str]) -> String {
+    use peginator::*;
+    let kind = args[0].to_string();
+    let p1 = args[1].to_string();
+    let p2 = args[2].to_string();
+    let input = String::from_utf8(unhex(args[3])).unwrap();
+    let r = panic::catch_unwind(move || {
+        let settings = ParseSettings::default();
+        let st = ParseState::new(&input, &settings);
+        fn fin<T>(r: ParseResult<T>, f: impl Fn(&T) -> String) -> String {
+            match r {
+                Ok(ok) => format!("OK\t{}\t{}", ok.state.cache_key(), f(&ok.result)),
+                Err(e) => format!("ERR\t{}\t{}", e.position, spec_str(&e.specifics)),
+            }
+        }
+        let ch = |s: &str| char::from_u32(s.parse::<u32>().unwrap()).unwrap();
+        match kind.as_str() {
+            "char" => fin(parse_char(st, ()), |c| format!("{}", *c as u32)),
+            "ws" => fin(parse_Whitespace(st, ()), |_| "-".into()),
+            "eoi" => fin(parse_end_of_input(st), |_| "-".into()),
+            "lit" => fin(parse_string_literal(st, leak(String::from_utf8(unhex(&p1)).unwrap())), |_| "-".into()),
+            "ilit" => fin(parse_string_literal_insensitive(st, leak(String::from_utf8(unhex(&p1)).unwrap())), |_| "-".into()),
+            "clit" => fin(parse_character_literal(st, ch(&p1)), |c| format!("{}", *c as u32)),
+            "iclit" => fin(parse_character_literal_insensitive(st, ch(&p1)), |c| format!("{}", *c as u32)),
+            "range" => fin(parse_character_range(st, ch(&p1), ch(&p2)), |c| format!("{}", *c as u32)),
+            _ => "BADKIND".into(),
+        }
+    });
+    match r {
+        Ok(s) => s,
+        Err(_) => "PANIC".to_string(),
+    }
+}
+
 fn main() {
     panic::set_hook(Box::new(|_| {}));
     let stdin = io::stdin();
@@ -48,6 +103,7 @@ fn main() {
         let parts: Vec<&str> = line.split('\t').collect();
         let resp = match parts[0] {
             "pretty" => pretty(&parts[1..]),
+            "term" => term(&parts[1..]),
             other => format!("UNKNOWN\t{}", other),
         };
         writeln!(out, "{}", resp).unwrap();
